@@ -158,6 +158,29 @@ def run(ctx):
                 ctx.rep.sample({"suite": "K5", "instance": inst, "routes": sol[models.route_key(cls)]})
 
 
+def finding_case(ctx, inp):
+    """replays a listed finding; `inject_layers` fixes which optimal assignment the solver 'chose'
+    (any feasible optimum must satisfy the property, so the choice is legitimate)"""
+    if "inject_layers" not in inp:
+        k5_case(ctx, inp, suite="known-findings")
+        return
+    m = models.build(ctx.fp, inp)
+    if not m.solve():
+        return
+    sol = {(str(u), str(v), i): 0 for (u, v) in m.G.edges() for i in range(m.k)}
+    for i, p in enumerate(inp["inject_layers"]):
+        full = [m.G.source] + list(p) + [m.G.sink]
+        for e in zip(full[:-1], full[1:]):
+            sol[(str(e[0]), str(e[1]), i)] = 1
+    m.edge_vars_sol = sol
+    m._solution = None
+    s = m.get_solution()
+    ctx.rep.count("known-findings", inp, nontrivial=True, hist=[inp["cls"], "injected optimum"])
+    for what, kind in solution_problems(inp, m, s):
+        ctx.violation(f"{inp['cls']}.get_solution(): {what}", inp, site=f"{inp['cls']}.get_solution:{kind}")
+        break
+
+
 def search(ctx):
     rng = random.Random(4242)
     for cls in models.ALL_CLASSES:
